@@ -3,218 +3,326 @@ package main
 import (
 	"go/ast"
 	"go/token"
+	"regexp"
 	"sort"
+	"strings"
 )
 
-// C14 — facts the model of routecmd.build / parseURLPrefixTag / makeConfig silently depends on: the literals of
-// the option switch and of the emitted line, how tags and options are quoted, that every command passes
-// fabio's own parser (and a routing table) before it is emitted, the tag partition, the address fallback, the
-// calls of parseURLPrefixTag, and the join of makeConfig.
+// C14 — facts the model of routecmd.build / parseURLPrefixTag / makeConfig silently depends on, stated over
+// the NORMALISED source (constants inlined, literal concatenations folded, switch = if-chain) and over the
+// INLINED walk from ServiceMonitor.makeConfig (serviceConfig, build and every unexported helper they call are
+// followed), with every local variable, parameter and receiver printed as `_`. What is pinned is meaning —
+// which library calls are made with which literal arguments, which conditions guard, which literals make up the
+// line, the order "parse, compare, table check, then emit", what the monitor reads — not the spelling of
+// statements, the names of locals or unexported helpers, or the file/function a statement lives in.
 func init() {
 	register("C14", func(x *X) error {
+		x.UseNormalizedAST()
 		const dir = "registry/consul"
 
-		callSrcs := func(n ast.Node, fns ...string) []string {
-			out := []string{}
-			if n == nil {
-				return out
-			}
-			for _, fn := range fns {
-				for _, c := range x.calls(n, fn) {
-					out = append(out, x.src(c))
-				}
-			}
-			return out
-		}
-		literals := func(n ast.Node) []string {
-			seen := map[string]bool{}
+		// ---- printing with anonymised locals --------------------------------------------------------------
+		// every identifier the parser resolved to a variable (receiver, parameter, local, range variable) is
+		// printed as `_`; function literals are printed as `func`
+		anon := func(n ast.Node) string {
+			saved := map[*ast.Ident]string{}
 			ast.Inspect(n, func(m ast.Node) bool {
-				if bl, ok := m.(*ast.BasicLit); ok && bl.Kind == token.STRING {
-					if s, ok := x.strLit(bl); ok {
-						seen[s] = true
-					}
-				}
-				return true
-			})
-			out := []string{}
-			for s := range seen {
-				out = append(out, s)
-			}
-			sort.Strings(out)
-			return out
-		}
-
-		// ---- routecmd.build ----------------------------------------------------------------------------
-		build := x.funcDecl(dir, "routecmd", "build")
-		if build != nil {
-			x.defStrList("buildLiterals", literals(build))
-			// the option switch: condition → statements, in source order
-			var conds, bodies []string
-			ast.Inspect(build, func(n ast.Node) bool {
-				sw, ok := n.(*ast.SwitchStmt)
-				if !ok || sw.Tag != nil || len(conds) > 0 {
-					return true
-				}
-				for _, st := range sw.Body.List {
-					cc := st.(*ast.CaseClause)
-					if cc.List == nil {
-						conds = append(conds, "default")
-					} else {
-						conds = append(conds, x.src(cc.List[0]))
-					}
-					b := ""
-					if len(cc.Body) > 0 {
-						b = x.src(cc.Body[0])
-					}
-					bodies = append(bodies, b)
-				}
-				return true
-			})
-			x.defStrList("optSwitchConds", conds)
-			x.defStrList("optSwitchFirstStmt", bodies)
-			x.defStrList("buildFieldsCalls", callSrcs(build, "strings.Fields"))
-			x.defStrList("buildTrimCalls", callSrcs(build, "strings.TrimSpace"))
-			x.defStrList("buildJoinCalls", callSrcs(build, "strings.Join", "net.JoinHostPort"))
-			x.defStrList("buildSplitCalls", callSrcs(build, "strings.Split"))
-			x.defNat("buildStrconvQuoteCalls", uint64(len(x.calls(build, "strconv.Quote"))))
-			x.defNat("buildSprintfQ", uint64(countVerbQ(x, build)))
-			// every if-condition of build, in source order (address fallback, darwin guard, clause guards)
-			var ifs []string
-			ast.Inspect(build, func(n ast.Node) bool {
-				if is, ok := n.(*ast.IfStmt); ok {
-					ifs = append(ifs, x.src(is.Cond))
-				}
-				return true
-			})
-			x.defStrList("buildIfConds", ifs)
-			// the validation: the statement that appends to the result is preceded, in the same block, by an
-			// `if err := <validator>(cfg, …); err != nil { …; continue }`
-			validator, guarded := "", false
-			ast.Inspect(build, func(n ast.Node) bool {
-				blk, ok := n.(*ast.BlockStmt)
-				if !ok {
-					return true
-				}
-				for i, st := range blk.List {
-					as, ok := st.(*ast.AssignStmt)
-					if !ok || len(as.Rhs) != 1 || x.src(as.Rhs[0]) != "append(config, cfg)" {
-						continue
-					}
-					for j := 0; j < i; j++ {
-						is, ok := blk.List[j].(*ast.IfStmt)
-						if !ok || is.Init == nil || x.src(is.Cond) != "err != nil" {
-							continue
-						}
-						ia, ok := is.Init.(*ast.AssignStmt)
-						if !ok || len(ia.Rhs) != 1 {
-							continue
-						}
-						call, ok := ia.Rhs[0].(*ast.CallExpr)
-						if !ok || len(call.Args) == 0 || x.src(call.Args[0]) != "cfg" {
-							continue
-						}
-						endsInContinue := false
-						if n := len(is.Body.List); n > 0 {
-							if bs, ok := is.Body.List[n-1].(*ast.BranchStmt); ok && bs.Tok == token.CONTINUE {
-								endsInContinue = true
+				switch v := m.(type) {
+				case *ast.SelectorExpr:
+					// rename only the root of a selector chain, never the selected name
+					ast.Inspect(v.X, func(k ast.Node) bool {
+						if id, ok := k.(*ast.Ident); ok && id.Obj != nil && id.Obj.Kind == ast.Var {
+							if _, done := saved[id]; !done {
+								saved[id] = id.Name
+								id.Name = "_"
 							}
 						}
-						if endsInContinue {
-							validator, guarded = x.src(call.Fun), true
+						return true
+					})
+					return true
+				case *ast.Ident:
+					if v.Obj != nil && v.Obj.Kind == ast.Var {
+						if _, done := saved[v]; !done {
+							saved[v] = v.Name
+							v.Name = "_"
 						}
 					}
 				}
 				return true
 			})
-			x.defBool("emitGuardedByValidator", guarded)
-			x.defStr("validatorName", validator)
-			if guarded {
-				if vd := x.funcDecl(dir, "", validator); vd != nil {
-					x.defStrList("validatorCalls", callSrcs(vd, "route.Parse", "route.NewTable", "reflect.DeepEqual", "strconv.ParseFloat"))
-					x.defStrList("validatorLiterals", literals(vd))
-				}
-			} else {
-				x.defStrList("validatorCalls", []string{})
-				x.defStrList("validatorLiterals", []string{})
+			s := x.src(n)
+			for id, old := range saved {
+				id.Name = old
 			}
+			return s
+		}
+		reFuncLit := regexp.MustCompile(`func\(.*\) .*\{.*\}`)
+		reSliceFrom := regexp.MustCompile(`(\w+)\[len\(("[^"]*")\):\]`)
+		reUnexpSel := regexp.MustCompile(`\b_\.[a-z]\w*`)
+		canon := func(s string) string {
+			s = reFuncLit.ReplaceAllString(s, "func")
+			// o[len("weight="):] and strings.TrimPrefix(o, "weight=") (under a HasPrefix guard) are the same
+			s = reSliceFrom.ReplaceAllString(s, "strings.TrimPrefix($1, $2)")
+			// a field or method with an unexported name, selected from a variable: the name is not pinned
+			s = reUnexpSel.ReplaceAllString(s, "_")
+			return s
+		}
+		// conditions without polarity: `!c` = c, `a != b` = `a == b`, `len(x) > 0` = `len(x) != 0` = `len(x) == 0`
+		// (whether a branch is taken on the condition or on its negation is behaviour — the streams' business)
+		reLenPos := regexp.MustCompile(`len\(([^()]*)\) (>|!=) 0`)
+		condCanon := func(e ast.Expr) string {
+			for {
+				if p, ok := e.(*ast.ParenExpr); ok {
+					e = p.X
+					continue
+				}
+				if u, ok := e.(*ast.UnaryExpr); ok && u.Op == token.NOT {
+					e = u.X
+					continue
+				}
+				break
+			}
+			s := canon(anon(e))
+			s = reLenPos.ReplaceAllString(s, "len($1) == 0")
+			if b, ok := e.(*ast.BinaryExpr); ok && b.Op == token.NEQ {
+				s = canon(anon(b.X)) + " == " + canon(anon(b.Y))
+			}
+			return s
 		}
 
-		// ---- parseURLPrefixTag -------------------------------------------------------------------------
+		root := x.funcDecl(dir, "ServiceMonitor", "makeConfig")
+		build := x.funcDecl(dir, "routecmd", "build")
+		if root == nil || build == nil {
+			return nil
+		}
+
+		// the last statement of an if-body that leaves the iteration/function: "exit"
+		exits := map[ast.Node]bool{}
+		for _, f := range x.files(dir) {
+			ast.Inspect(f, func(n ast.Node) bool {
+				if is, ok := n.(*ast.IfStmt); ok && len(is.Body.List) > 0 {
+					switch last := is.Body.List[len(is.Body.List)-1].(type) {
+					case *ast.ReturnStmt:
+						exits[last] = true
+					case *ast.BranchStmt:
+						if last.Tok == token.CONTINUE || last.Tok == token.BREAK {
+							exits[last] = true
+						}
+					}
+				}
+				return true
+			})
+		}
+		// the variable build returns: an append to it is an "emit"
+		resultVar := ""
+		if n := len(build.Body.List); n > 0 {
+			if r, ok := build.Body.List[n-1].(*ast.ReturnStmt); ok && len(r.Results) == 1 {
+				if id, ok := r.Results[0].(*ast.Ident); ok {
+					resultVar = id.Name
+				}
+			}
+		}
+		if resultVar == "" {
+			x.fail("routecmd.build: does not end in `return <variable>`")
+		}
+
+		interesting := func(callee string) bool {
+			for _, p := range []string{"strings.", "strconv.", "net.", "os.Expand", "route.", "reflect.", "bytes.", "sort.", "fmt.Sprintf"} {
+				if strings.HasPrefix(callee, p) {
+					return true
+				}
+			}
+			return false
+		}
+		message := func(callee string) bool {
+			return strings.HasPrefix(callee, "log.") || callee == "fmt.Errorf" || callee == "errors.New"
+		}
+		entryFields := map[string]bool{}
+		for _, f := range []string{"ID", "Node", "Address", "Datacenter", "TaggedAddresses", "NodeMeta", "ServiceID", "ServiceName", "ServiceAddress",
+			"ServiceTaggedAddresses", "ServiceTags", "ServiceMeta", "ServicePort", "ServiceWeights", "ServiceEnableTagOverride", "ServiceProxy",
+			"ServiceLocality", "CreateIndex", "ModifyIndex", "Checks", "Namespace", "Partition", "Status", "CheckID", "Notes", "Output"} {
+			entryFields[f] = true
+		}
+
+		var calls, conds, effects, order []string
+		lits := map[string]bool{}
+		reads := map[string]bool{}
+		var envKeys []string
+		inMessage := map[ast.Node]bool{}
+		inBuild := false
+		walkFrom := func(fd *ast.FuncDecl, fromBuild bool) {
+			x.WalkInlined(dir, fd, func(n ast.Node) bool {
+				switch v := n.(type) {
+				case *ast.CallExpr:
+					callee := x.src(v.Fun)
+					if message(callee) {
+						for _, a := range v.Args {
+							ast.Inspect(a, func(k ast.Node) bool {
+								if k != nil {
+									inMessage[k] = true
+								}
+								return true
+							})
+						}
+					}
+					if interesting(callee) {
+						calls = append(calls, canon(anon(v)))
+						if fromBuild && (callee == "strconv.ParseFloat" || callee == "route.Parse" || callee == "route.NewTable" || callee == "reflect.DeepEqual") {
+							order = append(order, "call "+callee)
+						}
+					}
+				case *ast.IfStmt:
+					c := condCanon(v.Cond)
+					conds = append(conds, c)
+					// a branch selected by a literal: what it does first
+					hasLit := false
+					ast.Inspect(v.Cond, func(k ast.Node) bool {
+						if bl, ok := k.(*ast.BasicLit); ok && bl.Kind == token.STRING {
+							if s, ok := x.strLit(bl); ok && strings.Contains(s, "=") {
+								hasLit = true
+							}
+						}
+						return true
+					})
+					if hasLit && len(v.Body.List) > 0 {
+						effects = append(effects, c+" => "+canon(anon(v.Body.List[0])))
+					}
+				case *ast.BasicLit:
+					if v.Kind == token.STRING && !inMessage[n] {
+						if s, ok := x.strLit(v); ok {
+							lits[s] = true
+						}
+					}
+				case *ast.SelectorExpr:
+					if entryFields[v.Sel.Name] {
+						if id, ok := v.X.(*ast.Ident); ok && id.Obj != nil && id.Obj.Kind == ast.Var {
+							reads[v.Sel.Name] = true
+						} else if _, ok := v.X.(*ast.SelectorExpr); ok {
+							reads[v.Sel.Name] = true
+						}
+					}
+				case *ast.CompositeLit:
+					if x.src(v.Type) == "map[string]string" && len(v.Elts) > 0 {
+						envKeys = append(envKeys, x.mapKeys(v)...)
+					}
+				case *ast.AssignStmt:
+					if fromBuild && len(v.Rhs) == 1 {
+						if c, ok := v.Rhs[0].(*ast.CallExpr); ok && x.src(c.Fun) == "append" && len(c.Args) > 0 && x.src(c.Args[0]) == resultVar {
+							if len(v.Lhs) == 1 && x.src(v.Lhs[0]) == resultVar {
+								order = append(order, "emit")
+							}
+						}
+					}
+				}
+				if fromBuild && exits[n] {
+					order = append(order, "exit")
+				}
+				return true
+			})
+		}
+		_ = inBuild
+		// calls, conditions, literals, reads: everything reachable from makeConfig
+		walkFrom(root, false)
+		// the order of validation and emission: within build (and whatever it calls)
+		savedCalls, savedConds, savedEffects := calls, conds, effects
+		walkFrom(build, true)
+		calls, conds, effects = savedCalls, savedConds, savedEffects
+		// drop the exits before the first validation call (tag syntax, redirect arity: not part of the validation)
+		for len(order) > 0 && !strings.HasPrefix(order[0], "call ") {
+			order = order[1:]
+		}
+
+		// sets, not multisets: repeating or sharing a call/condition is not a change of meaning
+		calls, conds, effects = uniq(calls), uniq(conds), uniq(effects)
+		x.defStrList("pipelineCalls", calls)
+		// calls that write Go-quoted text (strconv.Quote…, a %q verb)
+		quoting := []string{}
+		for _, c := range calls {
+			if strings.HasPrefix(c, "strconv.Quote") || strings.HasPrefix(c, "strconv.AppendQuote") || (strings.HasPrefix(c, "fmt.Sprintf") && strings.Contains(c, "%q")) {
+				quoting = append(quoting, c)
+			}
+		}
+		x.defStrList("goQuotingCalls", quoting)
+		x.defStrList("pipelineConds", conds)
+		x.defStrList("optionEffects", effects)
+		var ls []string
+		for s := range lits {
+			ls = append(ls, s)
+		}
+		sort.Strings(ls)
+		x.defStrList("pipelineLiterals", ls)
+		x.defStrList("validationOrder", order)
+		var rs []string
+		for s := range reads {
+			rs = append(rs, s)
+		}
+		sort.Strings(rs)
+		x.defStrList("entryFieldsRead", rs)
+		sort.Strings(envKeys)
+		x.defStrList("envKeys", envKeys)
+
+		// ---- parseURLPrefixTag: what it returns (the name is referenced by the hook file: a rename breaks the
+		// harness build, which the check reports) ----------------------------------------------------------
 		if pt := x.funcDecl(dir, "", "parseURLPrefixTag"); pt != nil {
-			x.defStrList("parseTagCalls", callSrcs(pt, "strings.TrimSpace", "strings.HasPrefix", "strings.SplitN", "strings.Contains", "strings.ToLower", "os.Expand"))
 			var rets []string
 			ast.Inspect(pt, func(n ast.Node) bool {
 				if _, ok := n.(*ast.FuncLit); ok {
 					return false // the returns of the expand/mapping closures are not results of the function
 				}
 				if r, ok := n.(*ast.ReturnStmt); ok {
-					rets = append(rets, x.src(r))
+					rets = append(rets, canon(anon(r)))
 				}
 				return true
 			})
+			sort.Strings(rets)
 			x.defStrList("parseTagReturns", rets)
 		}
 
-		// ---- makeConfig / serviceConfig ----------------------------------------------------------------
-		if mc := x.funcDecl(dir, "ServiceMonitor", "makeConfig"); mc != nil {
-			x.defStrList("makeConfigJoin", callSrcs(mc, "sort.Sort", "strings.Join"))
-		}
-		if sc := x.funcDecl(dir, "ServiceMonitor", "serviceConfig"); sc != nil {
-			var first string
-			if len(sc.Body.List) > 0 {
-				if is, ok := sc.Body.List[0].(*ast.IfStmt); ok {
-					first = x.src(is.Cond)
+		// ---- no state between calls ------------------------------------------------------------------------
+		// the TYPES of the monitor's fields (field names are unexported: not pinned), writes through a receiver,
+		// package-level variables, and which of the monitor's fields (by type) the pipeline reads
+		fieldType := map[string]string{}
+		var monTypes, cmdTypes []string
+		for _, f := range x.files(dir) {
+			for _, d := range f.Decls {
+				gd, ok := d.(*ast.GenDecl)
+				if !ok || gd.Tok != token.TYPE {
+					continue
 				}
-			}
-			x.defStr("serviceConfigGuard", first)
-			var envKeys []string
-			ast.Inspect(sc, func(n ast.Node) bool {
-				if cl, ok := n.(*ast.CompositeLit); ok && x.src(cl.Type) == "map[string]string" {
-					envKeys = x.mapKeys(cl)
-				}
-				return true
-			})
-			x.defStrList("envKeys", envKeys)
-			x.defStrList("serviceConfigBuildCalls", callSrcs(sc, "r.build"))
-		}
-		// ---- no state between calls: struct fields, writes through the receiver, what the methods read ------
-		structFields := func(name string) []string {
-			out := []string{}
-			found := false
-			for _, f := range x.files(dir) {
-				for _, d := range f.Decls {
-					gd, ok := d.(*ast.GenDecl)
-					if !ok || gd.Tok != token.TYPE {
+				for _, sp := range gd.Specs {
+					ts := sp.(*ast.TypeSpec)
+					st, ok := ts.Type.(*ast.StructType)
+					if !ok || (ts.Name.Name != "ServiceMonitor" && ts.Name.Name != "routecmd") {
 						continue
 					}
-					for _, sp := range gd.Specs {
-						ts := sp.(*ast.TypeSpec)
-						st, ok := ts.Type.(*ast.StructType)
-						if !ok || ts.Name.Name != name {
-							continue
+					for _, fl := range st.Fields.List {
+						k := len(fl.Names)
+						if k == 0 {
+							k = 1
 						}
-						found = true
-						for _, fl := range st.Fields.List {
-							if len(fl.Names) == 0 {
-								out = append(out, "embedded "+x.src(fl.Type))
-							}
-							for _, n := range fl.Names {
-								out = append(out, n.Name+" "+x.src(fl.Type))
+						for i := 0; i < k; i++ {
+							if ts.Name.Name == "ServiceMonitor" {
+								monTypes = append(monTypes, x.src(fl.Type))
+								if i < len(fl.Names) {
+									fieldType[fl.Names[i].Name] = x.src(fl.Type)
+								}
+							} else {
+								cmdTypes = append(cmdTypes, x.src(fl.Type))
 							}
 						}
 					}
 				}
 			}
-			if !found {
-				x.fail("%s: struct %s not found", dir, name)
-			}
-			return out
 		}
-		x.defStrList("monitorFields", structFields("ServiceMonitor"))
-		x.defStrList("routecmdFields", structFields("routecmd"))
-		// methods of ServiceMonitor / routecmd, writes through their receivers, selectors read through them
-		var monMethods, recvWrites, pkgVars []string
-		reads := map[string][]string{}
+		if len(monTypes) == 0 {
+			x.fail("%s: struct ServiceMonitor not found", dir)
+		}
+		sort.Strings(monTypes)
+		sort.Strings(cmdTypes)
+		x.defStrList("monitorFieldTypes", monTypes)
+		x.defStrList("routecmdFieldTypes", cmdTypes)
+
+		var recvWrites, pkgVars []string
+		monReads := map[string]bool{}
 		for _, f := range x.files(dir) {
 			for _, d := range f.Decls {
 				switch dd := d.(type) {
@@ -239,9 +347,6 @@ func init() {
 						continue
 					}
 					recv := dd.Recv.List[0].Names[0].Name
-					if id.Name == "ServiceMonitor" {
-						monMethods = append(monMethods, dd.Name.Name)
-					}
 					rooted := func(e ast.Expr) bool {
 						for {
 							switch v := e.(type) {
@@ -260,63 +365,65 @@ func init() {
 							}
 						}
 					}
-					seen := map[string]bool{}
+					isWatch := id.Name == "ServiceMonitor" && ast.IsExported(dd.Name.Name)
 					ast.Inspect(dd.Body, func(n ast.Node) bool {
 						switch v := n.(type) {
 						case *ast.AssignStmt:
 							for _, l := range v.Lhs {
 								if _, plain := l.(*ast.Ident); !plain && rooted(l) {
-									recvWrites = append(recvWrites, id.Name+"."+dd.Name.Name+": "+x.src(v))
+									recvWrites = append(recvWrites, id.Name+": "+canon(anon(v)))
 								}
 							}
 						case *ast.IncDecStmt:
 							if rooted(v.X) {
-								recvWrites = append(recvWrites, id.Name+"."+dd.Name.Name+": "+x.src(v))
+								recvWrites = append(recvWrites, id.Name+": "+canon(anon(v)))
 							}
 						case *ast.SelectorExpr:
-							if rooted(v) {
-								// the longest field path: w.config.TagPrefix, not also w.config
-								seen[x.src(v)] = true
-								return false
+							// recv.<field>.<Exported> or recv.<field>: the monitor's field by its type
+							if id.Name != "ServiceMonitor" || isWatch {
+								return true
+							}
+							if inner, ok := v.X.(*ast.SelectorExpr); ok {
+								if r, ok := inner.X.(*ast.Ident); ok && r.Name == recv {
+									if ft, ok := fieldType[inner.Sel.Name]; ok {
+										monReads["("+ft+")."+v.Sel.Name] = true
+										return false
+									}
+								}
+							}
+							if r, ok := v.X.(*ast.Ident); ok && r.Name == recv {
+								if ft, ok := fieldType[v.Sel.Name]; ok {
+									monReads["("+ft+")"] = true
+								}
 							}
 						}
 						return true
 					})
-					var rs []string
-					for r := range seen {
-						rs = append(rs, r)
-					}
-					sort.Strings(rs)
-					reads[id.Name+"."+dd.Name.Name] = rs
 				}
 			}
 		}
-		sort.Strings(monMethods)
 		sort.Strings(pkgVars)
 		sort.Strings(recvWrites)
-		x.defStrList("monitorMethods", monMethods)
 		x.defStrList("receiverWrites", recvWrites)
 		x.defStrList("packageVars", pkgVars)
-		x.defStrList("makeConfigReads", reads["ServiceMonitor.makeConfig"])
-		x.defStrList("serviceConfigReads", reads["ServiceMonitor.serviceConfig"])
-		x.defStrList("buildReads", reads["routecmd.build"])
+		var mr []string
+		for s := range monReads {
+			mr = append(mr, s)
+		}
+		sort.Strings(mr)
+		x.defStrList("monitorReads", mr)
 		return nil
 	})
 }
 
-// countVerbQ counts fmt.Sprintf calls in n whose format contains %q.
-func countVerbQ(x *X, n ast.Node) int {
-	k := 0
-	for _, c := range x.calls(n, "fmt.Sprintf") {
-		if len(c.Args) > 0 {
-			if s, ok := x.strLit(c.Args[0]); ok {
-				for i := 0; i+1 < len(s); i++ {
-					if s[i] == '%' && s[i+1] == 'q' {
-						k++
-					}
-				}
-			}
+// uniq sorts and removes duplicates.
+func uniq(l []string) []string {
+	sort.Strings(l)
+	out := []string{}
+	for i, s := range l {
+		if i == 0 || s != l[i-1] {
+			out = append(out, s)
 		}
 	}
-	return k
+	return out
 }
